@@ -14,6 +14,20 @@ func addOrReplaceOpt(m *dnsmsg.Msg, udpSize uint16) {
 	m.Additionals = append(m.Additionals, newEDNS0(udpSize))
 }
 
+// queryOpt returns the header of the OPT record of query m, or nil.
+// The OPT record belongs to the additional section. A misplaced one still
+// says that the client speaks edns0.
+func queryOpt(m *dnsmsg.Msg) *dnsmsg.ResourceHdr {
+	for _, rs := range [...][]dnsmsg.Resource{m.Additionals, m.Authorities, m.Answers} {
+		for _, rr := range rs {
+			if hdr := rr.Hdr(); hdr.Type == dnsmsg.TypeOPT {
+				return hdr
+			}
+		}
+	}
+	return nil
+}
+
 func newEDNS0(udpSize uint16) *dnsmsg.RawResource {
 	if udpSize < 512 {
 		udpSize = 512
